@@ -216,6 +216,14 @@ theorem convert_solution_entry (spinModel : Bool) (rev : Mapping) (n : Nat) (s :
       aget a l = some (ownOf spinModel (isSolutionSpin (s.map Prod.snd) flag) v) :=
   convertSolution_lookup hc hi hl hu
 
+/-- **T4.6 (domain).**  The dict returned by `convert_solution` has exactly the keys
+`reverse_mapping[0], …, reverse_mapping[n-1]` (`n = num_binary_variables`): a label `l` is a key iff it is
+`reverse_mapping[i]` for some `i < n`.  No hypothesis on the bookkeeping. -/
+theorem convert_solution_domain (spinModel : Bool) (rev : Mapping) (n : Nat) (s : Sol) (isDict flag : Bool)
+    (a : Assign) (hc : convertSolution spinModel rev n s isDict flag = .ok a) (l : Var) :
+    (aget a l).isSome = true ↔ ∃ i, i < n ∧ mapGet rev i = .ok l :=
+  convertSolution_dom hc l
+
 /-- **T4.6 (value).**  `M.value(M.convert_solution(s))` equals the enumerated model's value at `s` read in
 the model's own form, whenever `mapping` / `reverse_mapping` are inverse to each other on the labels of `M`
 with images below `n = num_binary_variables` (the bookkeeping invariant of a refreshed model, property
@@ -304,12 +312,21 @@ theorem qubo_to_matrix_empty (symmetric : Bool) : quboToMatrix [] false symmetri
 
 /-! ## T4.8 — result types -/
 
-/-- exact Matrix type in ⇒ Matrix type out, anything else ⇒ the labelled type -/
+/-- the inputs a boolean-side function (`pubo_to_puso`, `qubo_to_quso`) is applied to: plain dicts and
+the five boolean types; `SpinSource` likewise for `puso_to_pubo`, `quso_to_qubo` -/
+def BoolSource (κ : Kind) : Prop := κ.isSpin = false
+def SpinSource (κ : Kind) : Prop := κ = .dict ∨ κ.isSpin = true
+
+/-- **T4.8 (result types).**  "Matrix type in gives Matrix type out, anything else gives the labelled
+type", for all four free functions and every source type of their family (plain dict, the three labelled
+types, the two Matrix types — together all ten model types). -/
 theorem free_function_result_kind (κ : Kind) :
-    (kindPuboToPuso κ = if κ = .pubom then .pusom else .puso) ∧
-    (kindPusoToPubo κ = if κ = .pusom then .pubom else .pubo) ∧
-    (kindQuboToQuso κ = if κ = .qubom then .qusom else .quso) ∧
-    (kindQusoToQubo κ = if κ = .qusom then .qubom else .qubo) := ⟨rfl, rfl, rfl, rfl⟩
+    (BoolSource κ → kindPuboToPuso κ = if κ.isMatrix then .pusom else .puso) ∧
+    (SpinSource κ → kindPusoToPubo κ = if κ.isMatrix then .pubom else .pubo) ∧
+    (BoolSource κ → kindQuboToQuso κ = if κ.isMatrix then .qusom else .quso) ∧
+    (SpinSource κ → kindQusoToQubo κ = if κ.isMatrix then .qubom else .qubo) := by
+  cases κ <;> simp [BoolSource, SpinSource, Kind.isSpin, Kind.isMatrix, kindPuboToPuso, kindPusoToPubo,
+    kindQuboToQuso, kindQusoToQubo]
 
 /-- the `to_*` methods exist exactly on the six labelled types -/
 theorem to_method_defined (κ : Kind) (t : Target) (m : Mapping) (deg : Option Int) (M : Poly) :
